@@ -23,7 +23,98 @@ OPS = {'+': 0, '-': 1, '*': 2, '==': 0, '!=': 1, '<': 2, '>=': 3, 'not ': 1}
 UN = {'-': 0, 'not ': 1}
 
 
-class Exporter(object):
+class Enc(object):
+    """numbering of names and base tags shared by the terms of one case"""
+
+    def __init__(self):
+        self.names = {}
+        self.tags = dict(BASE_TAGS)
+
+    def name(self, s):
+        s = str(s)
+        if s not in self.names:
+            self.names[s] = len(self.names)
+        return self.names[s]
+
+    def ty(self, t):
+        if isinstance(t, tuple):
+            return 'TTup [%s]' % '; '.join(self.ty(e) for e in t)
+        k = L.tname(t)
+        if k not in self.tags:
+            self.tags[k] = len(self.tags)
+        return 'TBase %d' % self.tags[k]
+
+    def tyset(self, s):
+        return '[%s]' % '; '.join(self.ty(t) for t in sorted(s, key=L.tname))
+
+    def tymap(self, d):
+        return '[%s]' % '; '.join('(%d, %s)' % (self.name(k), self.tyset(v)) for k, v in sorted(d.items(), key=lambda kv: str(kv[0])))
+
+
+def source_pos(fn):
+    return (fn.lineno, fn.col_offset)
+
+
+def call_sites(prog, an):
+    """-> [(calling function H, CFG node, callee def G)]: the statements of every analysed graph that read the
+    name of a local function whose def is in their DEFINED_FNS_IN (reaching_fndefs; certified separately by
+    fn_case / fndefs_reach_call_sites).  Names are read syntactically from the statement, bodies of nested
+    defs excluded (a def statement calls nothing)."""
+    anno = an.anno
+    out = []
+    for az in an.analyzers:
+        h = az._c19_fn
+        if h is None:
+            continue
+        for a, n in az.graph.index.items():
+            if not anno.hasanno(a, anno.Static.DEFINED_FNS_IN) or isinstance(a, (ast.FunctionDef, ast.Lambda)):
+                continue
+            reads = set()
+            todo = [a]
+            while todo:
+                x = todo.pop()
+                if isinstance(x, (ast.FunctionDef, ast.Lambda)):
+                    continue
+                if isinstance(x, ast.Name) and isinstance(x.ctx, ast.Load):
+                    reads.add(x.id)
+                todo.extend(ast.iter_child_nodes(x))
+            for d in anno.getanno(a, anno.Static.DEFINED_FNS_IN):
+                if isinstance(d, ast.FunctionDef) and d.name in reads and id(d) in prog.num:
+                    out.append((h, n, d, az))
+    return out
+
+
+def closure_case(prog, an, idx):
+    """The closure data of one analysed program as a `ccase` of coq/Types/Closure.v (None when the program has
+    no local function)."""
+    enc = Enc()
+    by_fn = {}
+    for az in an.analyzers:
+        if az._c19_fn is not None:
+            by_fn[id(az._c19_fn)] = az
+    funs = []
+    for az in an.analyzers:
+        g = az._c19_fn
+        if g is None or g is prog.fn:
+            continue
+        final = an.closure.get(prog.num[id(g)], {})
+        entry = {str(k): v for k, v in az.in_[az.graph.entry].types.items()}
+        funs.append('mklfun %d [%s] %s %s %s' % (
+            prog.num[id(g)], '; '.join(str(enc.name(q)) for q in sorted(str(q) for q in az.scope.bound)),
+            enc.tymap(az._c19_seen), enc.tymap(final), enc.tymap(entry)))
+    if not funs:
+        return None
+    sites = []
+    for h, n, d, az in call_sites(prog, an):
+        if id(d) not in by_fn:
+            continue
+        late = source_pos(h) >= source_pos(d)
+        sites.append('mkcsite %d %s %s' % (prog.num[id(d)], 'true' if late else 'false',
+                                           enc.tymap({str(k): v for k, v in az.out[n].types.items()})))
+    return '(%d, [%s], [%s])' % (idx, ';\n '.join(funs), ';\n '.join(sites))
+
+
+class Exporter(Enc):
     def __init__(self, prog, an, log):
         from malt.pyct.static_analysis import type_inference
         self.SI = type_inference.StmtInferrer
@@ -42,29 +133,9 @@ class Exporter(object):
             if isinstance(n, ast.For):
                 self.for_of_iter[id(n.iter)] = n
 
-    # ---- encodings
-    def name(self, s):
-        s = str(s)
-        if s not in self.names:
-            self.names[s] = len(self.names)
-        return self.names[s]
-
-    def ty(self, t):
-        if isinstance(t, tuple):
-            return 'TTup [%s]' % '; '.join(self.ty(e) for e in t)
-        k = L.tname(t)
-        if k not in self.tags:
-            self.tags[k] = len(self.tags)
-        return 'TBase %d' % self.tags[k]
-
-    def tyset(self, s):
-        return '[%s]' % '; '.join(self.ty(t) for t in sorted(s, key=L.tname))
-
+    # ---- encodings (name / ty / tyset / tymap: Enc)
     def otyset(self, s):
         return 'None' if s is None else 'Some %s' % self.tyset(s)
-
-    def tymap(self, d):
-        return '[%s]' % '; '.join('(%d, %s)' % (self.name(k), self.tyset(v)) for k, v in sorted(d.items(), key=lambda kv: str(kv[0])))
 
     def val(self, v):
         tn = type(v).__name__
